@@ -18,15 +18,15 @@ CHECKS = {
  'C11': 'BMP/PNM/TARGA readers (read_image, read_image_info, read_view, read_and_convert_image/view) over a FILE*/file-name model for every truncation point and header variant of small images: object bounds on all buffers, bounded loops (unwinding assertions), no division by zero, outcome is return or an expected exception, stream closed; structural header bytes concrete per query, all other bytes symbolic',
  'C12': 'write_view then read_image through the FILE model reproduces dimensions and every pixel (symbolic contents, symbolic compared position) for BMP, binary PNM and TARGA, supported pixel types, widths 1..5 (all row-padding residues), five view organisations, FILE* and file name',
  'C13': 'partial read == crop, read_and_convert == color_convert of the native read, read_view into a guarded pre-allocated view, file name == FILE*, read_image_info == dimensions, too-small view rejected with destination untouched, for BMP 24/32 (both orientations), PNM P5/P6, TARGA 24/32 raw (both orientations); pixel data symbolic',
+ 'C14': 'any_image / any_image_view over {gray8, rgb8, rgb8 planar}: observers, 13 view transformations (result holds the concrete result type and compares equal to it, pixel identity at a symbolic pixel), copy/convert/equal/fill/for_each/resample overloads against the concrete algorithm at one symbolic buffer byte, incompatible pairs throw std::bad_cast and leave the destination unchanged, deep any_image / shallow any_image_view copies, recreate keeps the alternative; alternative (pair) and dims concrete, contents symbolic',
+ 'C19': 'std-container histograms (extension/histogram/std.hpp): per-bin exactness for a symbolic bin with fully symbolic pixels, accumulate vs replace, sum of bins, cumulative monotone with last == total, vector/array agreement, gil::histogram key helpers; sparse gil::histogram (std::unordered_map with a model of _Prime_rehash_policy::_M_need_rehash) fill/cumulative on <= 2 symbolic pixels in the thorough tier; mask/limits, multi-axis, sub_histogram, normalize, std::map filler outside (pointer-rich libstdc++ containers)',
  'C16': 'threshold_binary/truncate per-channel definition for 4 channel types x modes x directions (all values symbolic), Otsu memory-safety/UB on u8/u16/s8/s16 images up to 2x2, dilate/erode == max/min over the in-image neighbourhood with a symbolic symmetric 3x3 structuring element on images up to 4x3, order and monotonicity consequences',
  'C18': 'toolbox colour spaces: rgb8->hsv/hsl channel ranges for all 2^24 pixels, hue periodicity and saturation-0 independence of hsv/hsl->rgb, ycbcr 601/709 ranges and round trips (stratified), cmyka, gray_alpha/alpha_gray -> rgba alpha carried, toolbox luminance == core weights',
  'C20': 'bresenham line (end points symbolic in [-N,N]^2, major extent concrete): point_count, first/last, 8-connected monotone steps, bounding box, one-pixel distance, apply_rasterizer on an exact bounding-box view; midpoint circle (radius concrete, centre symbolic): count, band, 8-fold symmetry, closedness, bounding box; ellipse (semi-axes concrete): trajectory, band, 4-fold symmetry, clipping',
 }
 PENDING = {
- 'C14': 'check under construction (any_image / any_image_view vs concrete alternative)',
  'C15': 'check under construction (convolution / correlation vs textbook sums)',
  'C17': 'check under construction (samplers, resample_pixels, matrix3x2)',
- 'C19': 'check under construction (std-container histograms; sparse histogram attempt)',
 }
 def main():
     checks = []
